@@ -5,7 +5,7 @@ from fractions import Fraction
 
 import z3
 
-from pyvc.values import Ref, SStr, code_str
+from pyvc.values import LstObj, Ref, SStr, SymSeq, code_str
 
 
 def val(model, t):
@@ -60,6 +60,18 @@ def _conv(model, st, v):
             "ref": val(model, v.term)}}
     if isinstance(v, SStr):
         return code_str(val(model, v.term))
+    if isinstance(v, (LstObj, SymSeq)):
+        seq = v.get(st) if isinstance(v, LstObj) else v
+        n = val(model, seq.length)
+        n = max(0, min(int(n), 12)) if isinstance(n, int) else 0
+        rows = []
+        for j in range(n):
+            row = []
+            for c, k in zip(seq.comps, seq.kinds):
+                x = val(model, z3.Select(c, j))
+                row.append(code_str(x) if k == "str" and isinstance(x, int) else x)
+            rows.append(row if seq.tuple_elems else row[0])
+        return rows
     if z3.is_expr(v):
         return val(model, v)
     if isinstance(v, (list, tuple)):
